@@ -30,7 +30,7 @@ SorensonSize(sc, w, h) ==
 SorensonDims(sc, w, h) ==
     CASE sc = 0 -> <<w, h>> [] sc = 1 -> <<w, h>> [] sc = 2 -> <<352, 288>> [] sc = 3 -> <<176, 144>>
       [] sc = 4 -> <<128, 96>> [] sc = 5 -> <<320, 240>> [] sc = 6 -> <<160, 120>>
-TypeCode(pt) == CASE pt = "I" -> 0 [] pt = "P" -> 1 [] pt = "D" -> 2
+TypeCode(pt) == CASE pt = "I" -> 0 [] pt = "P" -> 1 [] pt = "D" -> 2 [] OTHER -> 3      \* 3 is reserved
 RECURSIVE PeiBits(_, _)
 PeiBits(pei, i) == IF i > Len(pei) THEN <<0>> ELSE <<1>> \o ToBits(pei[i], 8) \o PeiBits(pei, i + 1)
 StdDims(fmt) == CASE fmt = 1 -> <<128, 96>> [] fmt = 2 -> <<176, 144>> [] fmt = 3 -> <<352, 288>>
@@ -77,13 +77,22 @@ MbBits(mb, intraPic, ver1) ==
       [] mb.k = "skip"  -> <<1>>
       [] mb.k = "raw"   -> mb.bits      \* arbitrary bits (only in inputs that are not claimed to be valid pictures)
       [] OTHER ->
-           (IF intraPic THEN <<>> ELSE <<0>>)
-           \o CodeOf(IF intraPic THEN McbpcI ELSE McbpcP, <<mb.t, mb.cbpc>>)
-           \o CodeOf(Cbpy, IF IsIntraT(mb.t) THEN mb.cbpy ELSE 15 - mb.cbpy)
-           \o (IF HasDq(mb.t) THEN DqBits(mb.dq) ELSE <<>>)
-           \o MvdBits(mb.mvd, 1)
-           \o BlockBits(mb.b[1], ver1) \o BlockBits(mb.b[2], ver1) \o BlockBits(mb.b[3], ver1)
-           \o BlockBits(mb.b[4], ver1) \o BlockBits(mb.b[5], ver1) \o BlockBits(mb.b[6], ver1)
+           LET cod   == IF intraPic THEN <<>> ELSE <<0>>
+               mcbpc == CodeOf(IF intraPic THEN McbpcI ELSE McbpcP, <<mb.t, mb.cbpc>>)
+               cbpy  == CodeOf(Cbpy, IF IsIntraT(mb.t) THEN mb.cbpy ELSE 15 - mb.cbpy)
+               dq    == IF HasDq(mb.t) THEN DqBits(mb.dq) ELSE <<>>
+               fault == IF "fault" \in DOMAIN mb THEN mb.fault ELSE "none"
+           IN  \* fault injection (inputs that are not claimed valid): the named element is replaced by a
+               \* prefix that begins no code word of its table and the macroblock stops there
+               CASE fault = "mcbpc" -> cod \o (IF intraPic THEN McbpcIInvalid[1] ELSE McbpcPInvalid[1])
+                 [] fault = "cbpy"  -> cod \o mcbpc \o CbpyInvalid[1]
+                 [] fault = "mvd"   -> cod \o mcbpc \o cbpy \o dq \o MvdInvalid[1]
+                 [] fault = "tcoef" -> cod \o mcbpc \o cbpy \o dq \o MvdBits(mb.mvd, 1)
+                                       \o (IF mb.b[1].dc >= 0 THEN ToBits(mb.b[1].dc, 8) ELSE <<>>) \o TcoefInvalid[1]
+                 [] OTHER ->
+                      cod \o mcbpc \o cbpy \o dq \o MvdBits(mb.mvd, 1)
+                      \o BlockBits(mb.b[1], ver1) \o BlockBits(mb.b[2], ver1) \o BlockBits(mb.b[3], ver1)
+                      \o BlockBits(mb.b[4], ver1) \o BlockBits(mb.b[5], ver1) \o BlockBits(mb.b[6], ver1)
 Ver1(pic) == pic.hk = "sor" /\ pic.ver = 1
 IntraPic(pic) == pic.pt = "I"
 MbsBits(pic) == ConcatAll([i \in 1..Len(pic.mbs) |-> MbBits(pic.mbs[i], IntraPic(pic), Ver1(pic))])
@@ -112,6 +121,7 @@ MbOk(mb, intraPic, ver1) ==
       [] mb.k = "skip" -> ~intraPic
       [] mb.k = "raw" -> FALSE
       [] OTHER ->
+           /\ "fault" \notin DOMAIN mb
            /\ mb.t \in (IF intraPic THEN {3, 4} ELSE 0..5) /\ mb.cbpc \in 0..3 /\ mb.cbpy \in 0..15
            /\ (HasDq(mb.t) => mb.dq \in {-2, -1, 1, 2}) /\ (~HasDq(mb.t) => mb.dq = 0)
            /\ Len(mb.mvd) = (IF IsIntraT(mb.t) THEN 0 ELSE IF Is4V(mb.t) THEN 4 ELSE 1)
